@@ -36,7 +36,7 @@ TNext ==
   /\ l <= Len(Trace) /\ l' = l + 1
   /\ (IF l = DiagLine THEN PrintT(<<"DIAG", l, "outcome", ParseOutcome(UReply(Ev.reply), UCtx(Ev.ctx)), Ev>>) ELSE TRUE)
   /\ (TParse \/ TRefused)
-  /\ UNCHANGED cvars
-TSpec == CInit /\ l = 1 /\ [][TNext]_<<cvars, l>>
+  /\ UNCHANGED <<cvars, svars>>
+TSpec == CInit /\ SInit /\ l = 1 /\ [][TNext]_<<cvars, svars, l>>
 Accepted == TLCGet("stats").diameter - 1 = Len(Trace)
 =============================================================================
